@@ -37,6 +37,7 @@ XSI = "http://www.w3.org/2001/XMLSchema-instance"
 M1 = '''
 from dataclasses import dataclass, field
 from typing import Optional, Dict, Callable, Union
+from xsdata.models.datatype import XmlDate, XmlDuration
 
 
 @dataclass
@@ -98,6 +99,12 @@ class W2:
         namespace = "urn:w"
 
     ext: list[object] = field(default_factory=list, metadata={"type": "Wildcard", "namespace": "##other"})
+
+
+@dataclass
+class Ev:
+    when: Optional[Union[XmlDate, XmlDuration]] = field(default=None, metadata={
+        "type": "Elements", "choices": ({"name": "on", "type": XmlDate}, {"name": "for", "type": XmlDuration})})
 
 
 @dataclass
@@ -222,6 +229,10 @@ def api_ops():
         "parseMalformed": lambda sh: sh.xp.from_string("<A xmlns='urn:a'><child>", m.A),
         # an element typed with a union of models: the candidates are tried with a STRICTER copy of the parser's
         # configuration - nothing of that may stay behind on the shared parser (parseBadValue is the witness)
+        # a compound field whose choices are told apart by PROBING the converter with the text (JSON carries no
+        # element name): the verdict for one string says nothing about the next string
+        "decCompoundDate": lambda sh: sh.jp.from_string('{"when": "2024-02-29"}', m.Ev),
+        "decCompoundDuration": lambda sh: sh.jp.from_string('{"when": "P1DT12H"}', m.Ev),
         "parseUnion": lambda sh: sh.xp.from_string("<UHolder><u><bark>3</bark></u></UHolder>", m.UHolder),
     }
 
